@@ -20,8 +20,6 @@ CONSTANTS MaxRows, NSpec, NKey, NLev, MaxRank,
           Mut_SeenBeforeCompetition,  \* fault: the entity seen-set is updated even for PSMs that lose the spectrum competition
           Mut_MergeSmallestHead       \* fault: merge emits the smallest head
 
-RowT == [spec : 1..NSpec, key : [1..NLev -> 1..NKey], tgt : BOOLEAN, rank : 1..MaxRank]
-
 VARIABLES rows, csize, dedup, rollup, pc, files, gorder, heads, seenS, seenK, outPsm, outLev
 vars == <<rows, csize, dedup, rollup, pc, files, gorder, heads, seenS, seenK, outPsm, outLev>>
 
@@ -29,16 +27,23 @@ N == Len(rows)
 Ids == 1..N
 Rank(i) == rows[i].rank
 \* canonical tables: spectra and entities named in order of first appearance, targets only matter for q
-IsRGS(f, n) == \A i \in 1..n : f[i] <= 1 + Max({0} \cup {f[j] : j \in 1..(i - 1)})
-Init == /\ rows \in UNION {[1..n -> RowT] : n \in 1..MaxRows}
-        /\ IsRGS([i \in 1..Len(rows) |-> rows[i].spec], Len(rows))
-        /\ \A i \in 1..Len(rows) : rows[i].tgt          \* labels do not influence retention
-        /\ \A k \in 1..NLev : IsRGS([i \in 1..Len(rows) |-> rows[i].key[k]], Len(rows))
-        /\ \E top \in 1..MaxRank : {rows[i].rank : i \in 1..Len(rows)} = 1..top      \* dense ranks
-        /\ csize \in 1..MaxRows
-        /\ dedup \in BOOLEAN /\ rollup \in BOOLEAN
-        /\ pc = "chunk" /\ files = <<>> /\ gorder = <<>> /\ heads = <<>>
+\* the table is built row by row (canonical: spectra / entities named by first appearance), so that all TLC workers share
+\* the enumeration; Begin then picks the configuration
+MaxOf(S) == IF S = {} THEN 0 ELSE Max(S)
+Init == /\ rows = <<>> /\ csize = 1 /\ dedup = TRUE /\ rollup = TRUE
+        /\ pc = "build" /\ files = <<>> /\ gorder = <<>> /\ heads = <<>>
         /\ seenS = {} /\ seenK = [k \in 1..NLev |-> {}] /\ outPsm = <<>> /\ outLev = [k \in 1..NLev |-> <<>>]
+AddRow == /\ pc = "build" /\ Len(rows) < MaxRows
+          /\ \E sp \in 1..NSpec, rk \in 1..MaxRank, ky \in [1..NLev -> 1..NKey] :
+                /\ sp <= 1 + MaxOf({rows[i].spec : i \in 1..Len(rows)})
+                /\ \A k \in 1..NLev : ky[k] <= 1 + MaxOf({rows[i].key[k] : i \in 1..Len(rows)})
+                /\ rows' = Append(rows, [spec |-> sp, key |-> ky, tgt |-> TRUE, rank |-> rk])   \* labels do not influence retention
+          /\ UNCHANGED <<csize, dedup, rollup, pc, files, gorder, heads, seenS, seenK, outPsm, outLev>>
+Begin == /\ pc = "build" /\ Len(rows) >= 1
+         /\ \E top \in 1..MaxRank : {rows[i].rank : i \in 1..Len(rows)} = 1..top      \* dense ranks
+         /\ csize' \in 1..MaxRows /\ dedup' \in BOOLEAN /\ rollup' \in BOOLEAN
+         /\ pc' = "chunk"
+         /\ UNCHANGED <<rows, files, gorder, heads, seenS, seenK, outPsm, outLev>>
 
 IsSortedPermOf(s, S) == /\ Len(s) = Cardinality(S) /\ SeqSet(s) = S
                         /\ \A i \in 1..(Len(s) - 1) : Rank(s[i]) >= Rank(s[i + 1])
@@ -95,7 +100,7 @@ MergeScan ==
 Finish == pc = "merge" /\ Live = {} /\ pc' = "done"
           /\ UNCHANGED <<rows, csize, dedup, rollup, files, gorder, heads, seenS, seenK, outPsm, outLev>>
 
-Next == WriteChunk \/ Glob \/ MergeScan \/ Finish
+Next == AddRow \/ Begin \/ WriteChunk \/ Glob \/ MergeScan \/ Finish
 Spec == Init /\ [][Next]_vars
 ---------------------------------------------------------------------------
 RowsF == [i \in Ids |-> rows[i]]
